@@ -130,6 +130,16 @@ def run(ctx):
                 offs.append({"op": "send", "chunking": rng.choice(["whole", "bytes"]), "reqs": [frame(b)]})
             offs.append({"op": rng.choice(["halfclose", "fullclose"])})
             scenarios.append(with_witness(offs, "example" if (i // 8) % 2 else "ref"))
+    if not ctx.replay:
+        # (5) an expired key that nothing touched, then the commands that enumerate the keyspace (example store: expiry is lazy)
+        for enum in ([R("KEYS", S("s:star"))], [R("SCAN", I(0))], [R("KEYS", S("s:star")), R("SCAN", I(0), tok("word", w="COUNT"), I(100))]):
+            scenarios.append(with_witness([{"op": "send", "chunking": "perreq", "reqs": [R("SET", S("kx"), S("va"), tok("word", w="PX"), I(30)), R("SET", S("ky"), S("vb"))]},
+                                           {"op": "sleep", "at": 80},
+                                           {"op": "send", "chunking": "perreq", "reqs": enum},
+                                           {"op": "send", "chunking": "perreq", "reqs": [R("GET", S("ky")), R("EXISTS", S("kx"))]}], "example"))
+        # (6) several connections answered at the same time through a slow transport: everybody keeps getting their own replies
+        scenarios += [cmdlib.concurrent_slow(v) for v in range(4)]
+        counts["special_scenarios"] = 7
     ctx.stage("generate")
     accepted, scs, lines = connlib.run_scenarios(ctx, scenarios, "c07")
     groups = connlib.report(ctx, accepted, scs, lines, None)
